@@ -5,8 +5,8 @@ from harness.core import cbool, clist, cnat, copt, cq
 
 ID = "C14"
 MODEL_TARGETS = ["C14/Cases.vo"]
-PROOF_TARGETS = ["C14/PaaProof.vo", "C14/Proofs.vo", "C14/History.vo"]
-OBLIGATION_FILES = []
+PROOF_TARGETS = ["C14/PaaProof.vo", "C14/Proofs.vo", "C14/Bridge.vo", "C14/History.vo"]
+OBLIGATION_FILES = ["C14/Bridge.v"]
 PROPS_FILE = "C14/Props.v"
 SHARD = 120
 PER_CASE_TIMEOUT = 60
@@ -23,11 +23,18 @@ RULE = ("random small panels (instances <= 3, columns <= 2, series length <= 9 (
         "transformer returned an output with at least two values (or rejected exactly at a "
         "documented boundary); distinct = distinct canonical JSON case")
 TRUSTED = [
-    "hand-written Gallina model (coq/C14/Model.v) of each transformer as a list function over Q, tied "
-    "to the code by the in-Coq correspondence run only (no translator): numpy slicing / np.full / "
+    "hand-written Gallina model (coq/C14/Model.v) of each transformer as a list function over Q. Tie "
+    "1 (translator/closedform_c14.py + coq/C14/Bridge.v, fail-closed, every run): the index "
+    "arithmetic of padder / truncation / interpolate / IntervalSegmenter / SlidingWindowSegmenter / "
+    "RandomIntervalFeatureExtractor, the parameter tests, the WHOLE body of PAA's running-sum loop "
+    "(symbolically executed) and the data flow of Imputer's drift branch are regenerated from the "
+    "source and proved equal, for all arguments, to what the model is built from; the remaining "
+    "statements of those functions are pinned textually. Tie 2: the in-Coq correspondence run",
+    "the library primitives are modelled, not verified: numpy slicing / np.full / "
     "np.pad(mode='edge') / np.array_split / np.hstack / as_strided windows, scipy interp1d(linear) "
     "on np.linspace grids, pandas fillna / interpolate(linear, nearest) / mean / median, statsmodels "
-    "acf, sklearn MinMaxScaler are modelled, not verified",
+    "acf, sklearn MinMaxScaler, PolynomialTrendForecaster(degree=1) = least-squares line "
+    "(correspondence only)",
     "float64 rounding is outside the model: outputs are compared in Q with tolerance "
     "|a-b| <= 1e-9 * (1 + |a|)",
 ]
@@ -52,6 +59,11 @@ MODELLED = [
     "column names / indices of the outputs are not part of the model (positions only)",
 ]
 NOT_RUNNABLE = []
+
+
+def translate(repo):
+    from translator import closedform_c14
+    return closedform_c14.translate(repo)
 
 QUARTERS = [-2.0, -1.0, -0.5, 0.0, 0.25, 0.5, 1.0, 1.5, 2.0, 3.0, 4.0, 5.0, 7.0, 9.0]
 
@@ -1040,7 +1052,8 @@ def coq_case(case, out):
 def coq_model_term(case):
     t = coq_case(case, {"err": "x"})
     if t and t.startswith("CImpute"):
-        return "(fun c => match c with CImpute m l _ => impute_res m l | _ => Err end) (%s)" % t
+        return ("(fun c => match c with CImpute m l _ => rmap (map (option_map Qred)) "
+                "(impute_res m l) | _ => Err end) (%s)" % t)
     return "model_says (%s)" % t if t else "tt"
 
 
